@@ -51,8 +51,12 @@ def net_config(family: str):
     return copy.deepcopy(NET)
 
 
-def hp_config(algo: str):
+def hp_config(algo: str, only_lr: bool = False):
     from agilerl.algorithms.core.registry import HyperparameterConfig, RLParameter
+    if only_lr:          # learning rates only: an rl_hp mutation then always changes a learning rate
+        if algo in ("DDPG", "TD3", "MADDPG", "MATD3"):
+            return HyperparameterConfig(lr_actor=RLParameter(min=1e-4, max=1e-2), lr_critic=RLParameter(min=1e-4, max=1e-2))
+        return HyperparameterConfig(lr=RLParameter(min=1e-4, max=1e-2))
     if algo in ("DDPG", "TD3", "MADDPG", "MATD3"):
         return HyperparameterConfig(lr_actor=RLParameter(min=1e-4, max=1e-2), lr_critic=RLParameter(min=1e-4, max=1e-2),
                                     batch_size=RLParameter(min=4, max=16, dtype=int))
